@@ -219,6 +219,20 @@ def build_property(prop, tier):
         rc2, out2, dt2 = sh("timeout 1500 coqchk -silent -o -Q theories TM -Q gen TMGen -Q Properties TMProps TMProps.%s" % prop, cwd=COQ, timeout=1600)
         res["coqchk_rc"] = rc2
         res["coqchk_tail"] = out2[-800:]
+        # the independent checker's own list of axioms of everything loaded
+        m2 = re.search(r"\* Axioms:\s*(.*?)\n\s*\n\* Constants", out2, re.S)
+        ax = []
+        if m2 and "<none>" not in m2.group(1):
+            ax = [a.strip() for a in m2.group(1).split("\n") if a.strip()]
+        res["coqchk_axioms"] = ax
+        for sect in ("type-in-type", "unsafe (co)fixpoints", "positivity is assumed"):
+            m3 = re.search(re.escape(sect) + r":\s*(\S+)", out2)
+            if m3 and m3.group(1) != "<none>":
+                res["coqchk_rc"] = 99
+                res["coqchk_tail"] = "coqchk reports " + sect + ": " + m3.group(1)
+        if [a for a in ax if a.split(".")[-1] not in ALLOWED_AXIOMS and a not in ALLOWED_AXIOMS]:
+            res["coqchk_rc"] = 98
+            res["coqchk_tail"] = "coqchk lists axioms outside the allow-list: " + ", ".join(ax)
         res["checker_cmd"] += " && coqchk -silent -o ... TMProps.%s" % prop
         res["wall_s"] = round(dt + dt2, 1)
     return res
